@@ -2,13 +2,8 @@
 //! property. Exit 0 = held, 1 = violation (line `VIOLATION property=<id> replay=<path>`),
 //! 2 = inconclusive.
 
-pub mod checks;
-pub mod model;
-pub mod shapes;
-pub mod spec;
-pub mod util;
-
-use util::{Acc, Run, J};
+use mina_verif::checks;
+use mina_verif::util::{self, Acc, Run, J};
 
 fn main() {
     let args: Vec<String> = std::env::args().collect();
